@@ -18,8 +18,17 @@ for d in sorted(pathlib.Path(__file__).resolve().parent.parent.joinpath("seeded"
             what = line
             break
     what = re.sub(r"^C\d\d\s*(regression|seed|change)?\s*\d*\s*[-—:]*\s*", "", what, flags=re.I)[:150].replace("|", "/")
-    ran = ", ".join(f"{r['check']}→{r['exit']}" for r in m.get("ran", []))
-    rows.append(f"| {m['seed_id']} | {m['breaks_property']} | {', '.join(files)} | {what} | {ran} | {', '.join(m.get('detected_by') or []) or '**none**'} |")
-print("| seed | breaks | file(s) | change | checks run → exit | caught by |")
+    rc = m.get("recheck")
+    if rc is None:
+        now = "not re-run"
+    elif rc["exit"] == 1:
+        now = "caught (failing input)" if rc.get("concrete") else "caught (no-failing-input-found)"
+    else:
+        now = "**not caught**"
+    if m.get("note_current_tree"):
+        now += " — " + m["note_current_tree"][:160].replace("|", "/")
+    first = ", ".join(m.get("detected_by") or []) or "none"
+    rows.append(f"| {m['seed_id']} | {m['breaks_property']} | {', '.join(files)} | {what} | {first} | {now} |")
+print("| seed | breaks | file(s) | change | caught by (all checks run when the seed was imported) | own check, current /verif on the repaired tree |")
 print("|---|---|---|---|---|---|")
 print("\n".join(rows))
